@@ -1972,9 +1972,10 @@ def _python_names_compared(rep: Report, ctx: Any, cfgs: dict[str, CFG]) -> None:
 _TYPED_SHAPES = {"type is a string": ("str", "list"), "type is a list": ("list", "str")}
 
 
-def _reachable_under(cfg: CFG, env: dict[str, bool], store: dict[str, ast.expr | None]) -> set[object]:
+def _reachable_under(cfg: CFG, env: dict[str, bool], store: dict[str, ast.expr | None], follow: Follow | None = None) -> set[object]:
     """the statements that can be executed when the given atoms have the given truth values (other atoms are free): a decision whose test
-    cannot have an outcome does not go that way, whatever the order or nesting of the decisions"""
+    cannot have an outcome does not go that way, whatever the order or nesting of the decisions.  `follow`: the functions whose call in a
+    test is decided by what they return under the same truth values"""
     seen: set[object] = {ENTRY}
     stack: list[object] = [ENTRY]
     while stack:
@@ -1983,7 +1984,7 @@ def _reachable_under(cfg: CFG, env: dict[str, bool], store: dict[str, ast.expr |
         if isinstance(n, ast.If):
             t_entry, f_entry = _arm_entries(cfg, n, True)
             if t_entry is not f_entry:
-                possible = _values_of_test(n.test, env, store)
+                possible = _values_of_test(n.test, env, store, follow)
                 closed = {id(e) for v, e in ((True, t_entry), (False, f_entry)) if v not in possible}
         for nx in cfg.succ.get(n, ()):
             if id(nx) not in closed and nx not in seen:
@@ -1992,60 +1993,115 @@ def _reachable_under(cfg: CFG, env: dict[str, bool], store: dict[str, ast.expr |
     return seen
 
 
+def _without_receiver(fn: ast.FunctionDef) -> ast.FunctionDef:
+    """the method as the function of its remaining parameters that `<receiver>.<method>(...)` calls"""
+    out = copy.copy(fn)
+    out.args = copy.copy(fn.args)
+    if fn.args.posonlyargs:
+        out.args.posonlyargs = fn.args.posonlyargs[1:]
+    else:
+        out.args.args = fn.args.args[1:]
+    return out
+
+
 def _composed_schema_stays_whole(rep: Report, ctx: Any, cfgs: dict[str, CFG]) -> None:
     ix = ctx.py
     sch = ix.cls("Schema")
-    n_moves = 0
+    # a method is judged together with the methods it calls on the same object: what such a method does happens where it is called (on
+    # the paths on which it is called), and what it answers decides the test that asks it.  The verdict belongs to the methods nothing
+    # else of the class calls - the validators pydantic runs.
+    methods = {}
     for m in sch.methods.values():
         pos = [*m.node.args.posonlyargs, *m.node.args.args]
-        if not pos or m.kind in ("staticmethod", "classmethod"):
-            continue
-        me = pos[0].arg
+        if pos and m.kind not in ("staticmethod", "classmethod"):
+            methods[m.name] = (m, pos[0].arg)
 
-        def of_me(t: ast.AST, me: str = me) -> bool:
-            return isinstance(t, ast.Attribute) and t.attr == "allOf" and isinstance(t.value, ast.Name) and t.value.id == me
+    def of_me(t: ast.AST, me: str) -> bool:
+        return isinstance(t, ast.Attribute) and t.attr == "allOf" and isinstance(t.value, ast.Name) and t.value.id == me
 
-        moves = []
-        for st in ast.walk(m.node):
+    def moves_of(m: Any, me: str) -> list[ast.stmt]:
+        moves: list[ast.stmt] = []
+        for st in _own_nodes(m.node):
             if isinstance(st, (ast.Assign, ast.AugAssign, ast.AnnAssign, ast.Delete)):
                 tg = st.targets if isinstance(st, (ast.Assign, ast.Delete)) else [st.target]
-                if any(of_me(x) for t in tg for x in ast.walk(t) if isinstance(getattr(x, "ctx", None), (ast.Store, ast.Del))):
+                if any(of_me(x, me) for t in tg for x in ast.walk(t) if isinstance(getattr(x, "ctx", None), (ast.Store, ast.Del))):
                     moves.append(st)
             elif isinstance(st, ast.Expr) and isinstance(st.value, ast.Call) and isinstance(st.value.func, ast.Attribute) and \
-                    st.value.func.attr in ("clear", "pop", "remove") and of_me(st.value.func.value):
+                    st.value.func.attr in ("clear", "pop", "remove") and of_me(st.value.func.value, me):
                 moves.append(st)
-        if not moves:
-            continue
-        n_moves += len(moves)
-        cfg = cfg_of(m, cfgs)
-        lc = Locals(m.node)
-        store: dict[str, ast.expr | None] = {n: ds[0][2] for n, ds in lc.defs.items()
-                                              if len(ds) == 1 and ds[0][0] == "assign" and isinstance(ds[0][2], ast.expr)}
-        taken = []
+        return moves
+
+    def own_calls(m: Any, me: str, node: ast.stmt | None = None) -> list[tuple[ast.Call, str]]:
+        """the calls `<me>.<method of the class>(...)` made by the method (by one of its statements)"""
+        nodes = _own_nodes(m.node) if node is None else walk_own(node)
+        return [(c, c.func.attr) for c in nodes if isinstance(c, ast.Call) and isinstance(c.func, ast.Attribute) and
+                isinstance(c.func.value, ast.Name) and c.func.value.id == me and c.func.attr in methods]
+
+    called = {h for m, me in methods.values() for _, h in own_calls(m, me) if h != m.name}
+    roots = [(m, me) for m, me in methods.values() if m.name not in called or m.decorators]
+
+    def shapes(m: Any, me: str, store: dict[str, ast.expr | None]) -> dict[str, dict[str, bool]]:
+        """the truth values of the tests on `<me>.type` for a schema whose type is a string / a list / absent"""
         type_tests = [r for c in calls_in(m.node) if call_name(c) == "isinstance" and len(c.args) == 2
                       for r in [_resolve(c, _State(store))] if isinstance(r, ast.Call) and norm(r.args[0]) == f"{me}.type"]
+        out: dict[str, dict[str, bool]] = {}
         for shape, (yes, no) in _TYPED_SHAPES.items():
             env = {f"isinstance({me}.type, {yes})": True, f"isinstance({me}.type, {no})": False, f"{me}.type is None": False,
                    f"{me}.type == None": False, f"{me}.type": True}
             for r in type_tests:  # whatever classes a test names, alone or in a tuple
                 env[norm(r)] = yes in {norm(t) for t in (r.args[1].elts if isinstance(r.args[1], ast.Tuple) else [r.args[1]])}
-            can = _reachable_under(cfg, env, store)
-            taken += [f"{shape}: {norm(st)[:50]}" for st in moves if st in can]
-        rep.check(not taken, "R15.8", f"Schema.{m.name}::allOf-stays-with-typed-schema",
-                  "a schema that has a `type` loses its allOf to a nested schema: the properties and `required` written next to the allOf are "
-                  "no longer part of the composition (they are silently dropped from the composed model)", where(m, moves[0]),
-                  lhs=taken, rhs="allOf is never moved away from its sibling keywords")
-        # the same question for a schema without `type`: the keywords written next to the allOf do not travel with it either
+            out[shape] = env
         env = {f"isinstance({me}.type, str)": False, f"isinstance({me}.type, list)": False, f"{me}.type is None": True,
                f"{me}.type == None": True, f"{me}.type": False}
         for r in type_tests:
             env[norm(r)] = False
-        can = _reachable_under(cfg, env, store)
-        untyped = [f"no type: {norm(st)[:50]}" for st in moves if st in can]
+        out["no type"] = env
+        return out
+
+    def taken(m: Any, me: str, shape: str | None, via: tuple[str, ...] = ()) -> list[tuple[Any, ast.stmt]]:
+        """the statements that take allOf away when the method runs for a schema of that shape (None: whatever the schema), in the method or
+        in a method it calls on the same object on such a path"""
+        cfg = cfg_of(m, cfgs)
+        lc = Locals(m.node)
+        store: dict[str, ast.expr | None] = {n: ds[0][2] for n, ds in lc.defs.items()
+                                              if len(ds) == 1 and ds[0][0] == "assign" and isinstance(ds[0][2], ast.expr)}
+        if shape is None:
+            can = set(cfg.reachable_from(ENTRY))
+        else:
+            env: dict[str, bool] = {}
+            asked: dict[str, ast.FunctionDef] = {}
+            for _, h in own_calls(m, me):  # a method that is asked in a test answers for a schema of the same shape
+                hm, hme = methods[h]
+                if h not in via and h != m.name and hme == me:
+                    asked[f"{me}.{h}"] = _without_receiver(hm.node)
+                    env.update(shapes(hm, hme, {})[shape])
+            env.update(shapes(m, me, store)[shape])
+            can = _reachable_under(cfg, env, store, Follow(test=asked))
+        out = [(m, st) for st in moves_of(m, me) if st in can]
+        for n in can:
+            for _, h in (own_calls(m, me, n) if isinstance(n, ast.stmt) else []):
+                if h not in via and h != m.name:
+                    out += taken(*methods[h], shape, (*via, m.name))
+        return out
+
+    n_moves = 0
+    for m, me in roots:
+        anywhere = taken(m, me, None)
+        if not anywhere:
+            continue
+        n_moves += len({id(st) for _, st in anywhere})
+        typed = [(f"{shape}: {norm(st)[:50]}", g, st) for shape in _TYPED_SHAPES for g, st in taken(m, me, shape)]
+        at = where(*anywhere[0])
+        rep.check(not typed, "R15.8", f"Schema.{m.name}::allOf-stays-with-typed-schema",
+                  "a schema that has a `type` loses its allOf to a nested schema: the properties and `required` written next to the allOf are "
+                  "no longer part of the composition (they are silently dropped from the composed model)", where(*typed[0][1:]) if typed else at,
+                  lhs=[t for t, _, _ in typed], rhs="allOf is never moved away from its sibling keywords")
+        # the same question for a schema without `type`: the keywords written next to the allOf do not travel with it either
+        untyped = [(f"no type: {norm(st)[:50]}", g, st) for g, st in taken(m, me, "no type")]
         rep.check(not untyped, "R15.8", f"Schema.{m.name}::allOf-stays-with-untyped-schema",
                   "a schema without `type` loses its allOf to a nested schema while `properties` / `required` written next to the allOf "
-                  "stay behind on the outer schema: they are silently dropped from the composed model", where(m, moves[0]),
-                  lhs=untyped, rhs="allOf is never moved away from its sibling keywords")
+                  "stay behind on the outer schema: they are silently dropped from the composed model", where(*untyped[0][1:]) if untyped else at,
+                  lhs=[t for t, _, _ in untyped], rhs="allOf is never moved away from its sibling keywords")
     rep.floor("allOf_moved_by_schema_validators", n_moves, 1)
 
 
@@ -2214,7 +2270,9 @@ def _parents_first(rep: Report, ctx: Any, cfgs: dict[str, CFG]) -> None:
               where(pp, pp.node))
 
 
-def _values_of_test(test: ast.expr, env: dict[str, bool], store: dict[str, ast.expr | None] | None = None) -> set[bool]:
-    """the truth values a test can take when the given atoms have the given values (other atoms are free; `store`: what locals hold)"""
-    ex = SymExec(ast.parse("def _():\n    pass").body[0], env)  # type: ignore[arg-type]
+def _values_of_test(test: ast.expr, env: dict[str, bool], store: dict[str, ast.expr | None] | None = None,
+                    follow: Follow | None = None) -> set[bool]:
+    """the truth values a test can take when the given atoms have the given values (other atoms are free; `store`: what locals hold;
+    `follow`: predicates that are decided by executing them under the same values)"""
+    ex = SymExec(ast.parse("def _():\n    pass").body[0], env, follow)  # type: ignore[arg-type]
     return {v for v, _ in ex._truth(test, _State(store))}
